@@ -876,6 +876,8 @@ def compare(op, a: V, b: V):
             return a.t > b.t
         if isinstance(op, ast.GtE):
             return a.t >= b.t
+    if isinstance(op, (ast.In, ast.NotIn)) and isinstance(b, VOpt) and isinstance(b.inner, VSeq):
+        b = b.inner  # evaluating `x in None` raises; callers guard with `is None` first
     if isinstance(op, (ast.In, ast.NotIn)) and isinstance(b, VSeq):
         r = z3.Contains(b.t, z3.Unit(a.t))
         return r if isinstance(op, ast.In) else z3.Not(r)
